@@ -49,7 +49,8 @@ def make_spec(t):
             lines.append("cat %s > %s" % (" ".join(t["ins"]), o))
         else:
             lines.append("echo %s > %s" % (t["name"], o))
-    return "\n".join(lines) + "\n"
+    # some scripts are written without a trailing newline (one-liners: gwf.target(...) << "cat a > b")
+    return "\n".join(lines) + ("" if t.get("no_trailing_newline") else "\n")
 
 
 def gen_case(rng, idx, tier):
@@ -64,6 +65,7 @@ def gen_case(rng, idx, tier):
         mode = rng.choice(["allpresent", "random", "none", "none"])
         for o in t["outs"]:
             ticks[o] = {"allpresent": rng.choice([0, 1, 2, 3]), "none": None}.get(mode, rng.choice([None, 0, 1, 2, 3]))
+        t["no_trailing_newline"] = rng.random() < 0.3
         t["spec"] = make_spec(t)
     names = [t["name"] for t in dag["targets"]]
     perturbs = []
